@@ -125,6 +125,16 @@ def config_texts(rnd):
         n_ = rnd.randint(2, 7)
         out.append("\n".join(rnd.choice(["", " ", "  ", "\t", "   "]) + rnd.choice(heads + bodies + lits[:20]) for _ in range(n_)))
     out += ["10.0.0.1 0.0.0.0", "10.0.0.0 0.0.0.0", "0.0.0.0 255.255.255.255", "1.2.3.4 255.255.255.255", "10 10.0.0.1 0.0.0.0"]
+    # an entry that references an address group defined in the same text, the group holding one member of every kind (also kinds the library cannot expand)
+    members = ["host 10.0.0.1", "10.0.0.0 255.255.255.0", "10.0.0.0 0.0.0.255", "10.0.0.0/24", "group-object B", "range 10.0.0.1 10.0.0.9", "description d", "any", "x", "host x",
+               "10.0.0.1", "10 host 10.0.0.1", "20 10.0.0.0/24", "network-object host 10.0.0.1", "network-object 10.0.0.0 255.255.255.0", "network-object object O"]
+    for gh, ah, ref in (("object-group network A", "ip access-list extended X", "object-group A"), ("object-group ip address A", "ip access-list X", "addrgroup A"),
+                        ("object-group network A", "access-list X extended", "object-group A")):
+        for m in members:
+            for m2 in ("", "host 10.0.0.2"):
+                grp = "\n".join([gh] + [" " + x for x in (m, m2) if x])
+                acl = "\n".join([ah, f" permit ip {ref} any", f" permit ip any {ref}"]) if "extended" not in ah.split()[-1:] else f"{ah} permit ip {ref} any"
+                out += [grp + "\n" + acl, acl + "\n" + grp, grp + "\nobject-group network B\n host 10.0.0.3\n" + acl]
     return out
 
 
